@@ -157,8 +157,40 @@ def r4_coverage_algebra(ctx, rule):
     if not saves or any(s.lineno > saves[0].lineno for s in msets):
         ok = False
         ctx.bad(rule, RT, 'M inserted after save_pcfg_data', 'the pseudo-count must be part of the saved list', facts, fn)
+    # every path from the `coverage != 1` branch to the save passes through one of the two insertions (seed C06-f: an
+    # error branch that falls through saves a ruleset without M although coverage != 1)
+    from ..cfg import CFG
+    cfg = CFG(fn)
+    tests = [nid for nid, n in cfg.nodes.items() if n.kind == 'test' and isinstance(n.stmt, ast.If)
+             and U(n.stmt.test) in ('%s != 1' % cov, '%s != 1.0' % cov, '%s == 1' % cov)]
+    save_n = None
+    for c in saves[:1]:
+        cur = c
+        while cur is not None and cfg.node_of(cur) is None:
+            cur = mod.parents.get(id(cur))
+        save_n = cfg.node_of(cur) if cur is not None else None
+    if len(tests) != 1 or save_n is None:
+        ok = False
+        ctx.unk(rule, RT, 'cannot locate the single coverage != 1 test and the save_pcfg_data call in the flow graph')
+    else:
+        t = tests[0]
+        lab = 'F' if U(cfg.nodes[t].stmt.test).endswith('== 1') else 'T'
+        mn = {cfg.node_of(st) for st in msets}
+        for b, l in cfg.succ[t]:
+            if l != lab:
+                continue
+            ctx.stats['paths'] += 1
+            if b not in mn and not cfg.every_path_passes(b, save_n, mn):
+                ok = False
+                w = cfg.witness_path(b, save_n, avoid=list(mn))
+                facts['witness'] = cfg.describe(w) if w else None
+                ctx.bad(rule, RT, "path from coverage != 1 to save_pcfg_data without count_base_structures['M'] = ...",
+                        'when coverage is not 1 the saved base-structure list must contain the Markov structure with its '
+                        'pseudo-count: every path that reaches the save must pass through one of the insertions (or leave '
+                        'run_trainer)', facts, cfg.nodes[t].stmt)
     if ok:
-        ctx.ok(rule, RT, "coverage != 1 guards the insertion; coverage 0 -> only M; else M = N/c - N", facts)
+        ctx.ok(rule, RT, "coverage != 1 guards the insertion; coverage 0 -> only M; else M = N/c - N; every path from the "
+               "guard to the save inserts M", facts)
 
 
 def r5_supported_only(ctx, rule):
@@ -295,10 +327,15 @@ def r6_determinism(ctx, rule):
                'config option uuid' % len(par))
 
 
+def r8_memo(ctx, rule):
+    from .common import memo_discipline
+    memo_discipline(ctx, rule, ['trainer.py'], RT)
+
+
 def rules(tier):
     return [('C06.R1', r1_relative_frequency), ('C06.R2', r2_all_items_written), ('C06.R3', c07.r6_wipe_before_write),
             ('C06.R4', r4_coverage_algebra), ('C06.R5', r5_supported_only), ('C06.R6', r6_determinism),
-            ('C06.R7', c07.r1b_validate_final_value)]
+            ('C06.R7', c07.r1b_validate_final_value), ('C06.R8', r8_memo)]
 
 
 META = {
